@@ -78,6 +78,74 @@ def respond (line : String) : String :=
        | .error .writeZero => s!"err write-zero {hex st'.delivered}"
        | .error _ => s!"err io {hex st'.delivered}")
     | none => "bad-request"
+  | [.atom "rdfile", lim, szv, sze, names, schema, bytes] =>
+    match atomNat? lim, atomNat? szv, atomNat? sze, parseNames names, parseSchema schema, atomBytes? bytes with
+    | some lim, some szv, some sze, some env, some s, some b =>
+      (match readFile { lim := lim, szValue := szv, szEntry := sze } Codec.null env bigFuel s b with
+       | .error _ => "err open"
+       | .ok (md, marker, vs, fin) =>
+         let ms := md.foldl (fun acc kv => insertSorted kv.1 (hex kv.2) acc) []
+         let mstr := String.join (ms.map (fun kv => s!" ({hex kv.1} {kv.2})"))
+         let vstr := String.join (vs.map (fun v => " " ++ showValue v))
+         let e := match fin with | .clean => "clean" | .error _ => "err"
+         s!"hdr ({mstr.drop 1}) {hex marker} items ({vstr.drop 1}) end {e}")
+    | _, _, _, _, _, _ => "bad-request"
+  | [.atom "wrcheck", bsz, .list fmeta, marker, .list ops, implFile, implResS] =>
+    let implRes : List Sexp := match implResS with | .list l => l | _ => []
+    match atomNat? bsz, atomBytes? marker, atomBytes? implFile with
+    | some bsz, some marker, some implFile =>
+      let fm := fmeta.filterMap (fun (e : Sexp) => match e with
+        | .list [k, v] => (do pure ((← atomBytes? k), (← atomBytes? v)) : Option (Bytes × Bytes))
+        | _ => none)
+      let cfg : WCfg := { blockSize := bsz, fixedMeta := fm, codec := Codec.null }
+      let parseOp (e : Sexp) : Option WOp := match e with
+        | .list [.atom "ap", b] => (atomBytes? b).map WOp.append
+        | .list [.atom "ae"] => some .appendEncodeError
+        | .list [.atom "ar"] => some .appendRejected
+        | .list [.atom "fl"] => some .flush
+        | .list [.atom "am", k, v] => do pure (.addMeta (← atomBytes? k) (← atomBytes? v))
+        | .list [.atom "rs", m] => (atomBytes? m).map WOp.reset
+        | .list [.atom "fi"] => some .finish
+        | .list [.atom "reopen"] => some .reopen
+        | _ => none
+      -- an op of the history is one model op or a `(seq op…)` whose results are summed (extend*)
+      let parseGroup (e : Sexp) : Option (List WOp) := match e with
+        | .list (.atom "seq" :: subs) => subs.mapM parseOp
+        | other => (parseOp other).map (fun o => [o])
+      match ops.mapM parseGroup with
+      | none => "bad-request"
+      | some wops =>
+        let runGroup (st : WState) (g : List WOp) : WState × Option Nat :=
+          g.foldl (fun (acc : WState × Option Nat) op =>
+            let (st', out) := Writer.step cfg acc.1 op
+            (st', match acc.2, out with | some a, some b => some (a + b) | _, _ => none)) (st, some 0)
+        let rec go (st : WState) (ops : List (List WOp)) (res : List Sexp) (i : Nat) : Except String WState :=
+          match ops, res with
+          | [], _ => .ok st
+          | g :: ops', r :: res' =>
+            let (st', out) := runGroup st g
+            let agree := match r, out with
+              | .list [.atom "ok", .atom "-1", .atom l], some _ => l == toString st'.sink.length
+              | .list [.atom "ok", .atom n, .atom l], some m => n == toString m && l == toString st'.sink.length
+              | .list [.atom "err", .atom l], none => l == toString st'.sink.length
+              | _, _ => false
+            if agree then go st' ops' res' (i+1)
+            else .error s!"op {i}: model result {out} sink {st'.sink.length}"
+          | g :: ops', [] => go (runGroup st g).1 ops' [] (i+1)
+        match go { marker := marker } wops implRes 0 with
+        | .error e => s!"differ {e}"
+        | .ok st =>
+          let lim := 1000000000
+          match readHeader { lim := lim } st.sink, readHeader { lim := lim } implFile with
+          | .ok (m1, k1, r1), .ok (m2, k2, r2) =>
+            let srt (m : List (Bytes × Bytes)) := m.foldl (fun acc kv => insertSorted kv.1 (hex kv.2) acc) []
+            if srt m1 != srt m2 then "differ header metadata"
+            else if k1 != k2 then "differ marker"
+            else if r1 != r2 then s!"differ blocks model={hex r1} impl={hex r2}"
+            else "same"
+          | .error _, .error _ => if st.sink == implFile then "same" else "differ unparsable"
+          | _, _ => "differ header"
+    | _, _, _ => "bad-request"
   | _ => "bad-request"
 
 partial def loop (h : IO.FS.Stream) (out : IO.FS.Stream) : IO Unit := do
